@@ -79,6 +79,9 @@ pub fn handle(op: &str, a: &[&str]) -> Option<String> {
             let n = uint_of(n)?;
             Some(show_split(pm1::pm1_impl(&n, u64_of(b1)?, u64_of(b2)? as f64, Verbosity::Silent)))
         }
+        // the strategy functions with their hard-wired (B1, B2) per size of n
+        ("s2_pm1_only", [n, ..]) => Some(show_split(pm1::pm1_only(&uint_of(n)?, Verbosity::Silent))),
+        ("s2_pm1_quick", [n, ..]) => Some(show_split(pm1::pm1_quick(&uint_of(n)?, Verbosity::Silent))),
         // full P+1 run
         ("s2_pp1", [n, seed, b1, b2, ..]) => {
             let n = uint_of(n)?;
@@ -132,6 +135,47 @@ pub fn handle(op: &str, a: &[&str]) -> Option<String> {
                 .collect();
             let (fs, rest) = gcd_factors(&n, &ms);
             Some(format!("{} {}", show_list(&fs), rest))
+        }
+        // check_gcd_factors of pollard_pm1.rs on raw words: `done factors nred values`
+        ("s2_cgf", [n, factors, nred, vals]) => {
+            let n = uint_of(n)?;
+            let mut factors: Vec<Uint> = list_of(factors)?;
+            let mut nred = uint_of(nred)?;
+            let vals: Vec<Uint> = list_of(vals)?;
+            let mut ms: Vec<MInt> = vals
+                .iter()
+                .map(|v| {
+                    let mut m = [0u64; 8];
+                    m.copy_from_slice(&v.digits()[..8]);
+                    MInt(m)
+                })
+                .collect();
+            let done = pm1::verif_hooks_stage2b::vh_check_gcd_factors(&n, &mut factors, &mut nred, &mut ms);
+            let back: Vec<Uint> = ms.iter().map(|m| Uint::from(*m)).collect();
+            Some(format!("{} {} {} {}", done, show_list(&factors), nred, show_list(&back)))
+        }
+        // ecm::check_gcd_factor on raw words
+        ("s2_cgf1", [n, vals]) => {
+            let n = uint_of(n)?;
+            let vals: Vec<Uint> = list_of(vals)?;
+            let ms: Vec<MInt> = vals
+                .iter()
+                .map(|v| {
+                    let mut m = [0u64; 8];
+                    m.copy_from_slice(&v.digits()[..8]);
+                    MInt(m)
+                })
+                .collect();
+            Some(show_opt(ecm::verif_hooks_stage2::vh_check_gcd_factor(&n, &ms)))
+        }
+        // PM1Base tables: `first len maxgap all_odd increasing nfactors`
+        ("s2_pm1base_data", []) => {
+            let pb = pm1::PM1Base::new();
+            let (f, l) = pm1::verif_hooks::vh_pm1base_parts(&pb);
+            let maxgap = l.windows(2).map(|w| w[1] - w[0]).max().unwrap_or(0);
+            let odd = l.iter().all(|p| p % 2 == 1);
+            let inc = l.windows(2).all(|w| w[0] < w[1]);
+            Some(format!("{} {} {} {} {} {}", l[0], l.len(), maxgap, odd, inc, f.len()))
         }
         ("s2_rho64", [n, c, iters]) => Some(show_pair(pollard_rho::rho64(u64_of(n)?, u64_of(c)?, u64_of(iters)?))),
         ("s2_rho_impl", [n, seed, iters]) => {
